@@ -1937,6 +1937,27 @@ package gedcom
 //@   oncall newNode check same-tag-value-pointer: arg0 == document && arg1 == family && arg2.tag == T && arg3 == V && arg4 == P
 //@   oncall newNode do n = n + 1; made = result
 //@   ensures the-copy: n == 1 && result == made
+// A deep copy IS that walk, for every node: Filter over exactly this node into
+// exactly the target document, with a function that copies each node FOR THE
+// TARGET document and always descends. (A shortcut such as 'a childless node is
+// its own ShallowCopy' is not: the shallow copy of a record lands in the SOURCE
+// document, as a plain node - C10's carried-over individuals and families.)
+//@ func DeepCopy
+//@   props C07 C10
+//@   ghost nWalk int = 0
+//@   ghost out iface
+//@   opaque Filter, IsNil
+//@   oncall Filter check this-node-into-the-target: arg0 == node && arg1 == document
+//@   oncall Filter do nWalk = nWalk + 1; out = result0
+//@   ensures by-the-walk: isnil(result0) || (nWalk == 1 && result0 == out)
+//@ func DeepCopy$1
+//@   props C07 C10
+//@   ghost nCopy int = 0
+//@   ghost made iface
+//@   opaque shallowCopyNode
+//@   oncall shallowCopyNode check this-node-for-the-target: arg0 == node && arg1 == document
+//@   oncall shallowCopyNode do nCopy = nCopy + 1; made = result0
+//@   ensures a-copy-for-the-target-and-descend: nCopy == 1 && result0 == made && result1
 //@ func filter
 //@   props C07
 //@   ghost nRec int = 0
